@@ -48,6 +48,7 @@ def plan(tier, seed):
     tasks += [dict(op="path", case=i, weight=3) for i in range(len(path_cases(tier)))]
     tasks += [dict(op="estimator", est=e, weight=4) for e in EST_SPECS]
     tasks += [dict(op="sqrt_path", weight=2)]
+    tasks += [dict(op="est_path", est=e, weight=3) for e in EST_PATH]
     return tasks
 
 
@@ -487,7 +488,107 @@ def run_sqrt_path(ctx):
     ctx.sample(dict(op="sqrt_path", grids="all orders of a 3-value grid, singletons, above-critical first / in the middle, repeated value"))
 
 
+# ---------------------------------------------------------------------------------- (d) estimator.path(): constructor arguments reach the path
+
+EST_PATH = ["Lasso", "WeightedLasso", "ElasticNet", "MCPRegression", "MultiTaskLasso"]
+
+
+def est_path_kws(name, p):
+    W = [None, [1.0, 0.0, 2.0, 0.5, 3.0][:p]]
+    out = []
+    for fi in (True, False):
+        if name == "Lasso":
+            out += [dict(fit_intercept=fi, positive=pos) for pos in (False, True)]
+        elif name == "WeightedLasso":
+            out += [dict(fit_intercept=fi, positive=pos, weights=w) for pos in (False, True) for w in W]
+        elif name == "ElasticNet":
+            out += [dict(fit_intercept=fi, positive=pos, l1_ratio=r) for pos in (False, True) for r in (1.0, 0.5)]
+        elif name == "MCPRegression":
+            out += [dict(fit_intercept=fi, positive=pos, weights=w, gamma=3.0) for pos in (False, True) for w in W]
+        else:
+            out += [dict(fit_intercept=fi)]
+    return out
+
+
+def exec_est_path(params):
+    """estimator.path(X, y, alphas[, coef_init]): every (alpha_t, coef_t) must meet the certificate of the *documented* problem of the
+    estimator at alpha_t with its constructor arguments (positive, weights, l1_ratio, gamma, fit_intercept); feasibility always."""
+    import warnings
+    from mc import estim
+    name = params["est"]
+    X = np.asfortranarray(np.array(params["X"], dtype=float))
+    y = np.array(params["y"], dtype=float)
+    y = np.asfortranarray(y) if y.ndim == 2 else y
+    kw = dict(params["kw"])
+    grid = list(params["grid"])
+    tol = 1e-8
+    est = estim.make(dict(name=name, kw=dict(kw, alpha=grid[0], tol=tol, max_iter=100, max_epochs=5000)))
+    ci = None if params.get("coef_init") is None else np.array(params["coef_init"], dtype=float)
+    out = []
+    try:
+        with warnings.catch_warnings():
+            warnings.simplefilter("ignore")
+            res = est.path(X, y, np.array(grid), coef_init=ci, return_n_iter=True)
+    except Exception as e:
+        return [("exception", type(e).__name__ + ": " + str(e)[:120], "path succeeds")], None
+    alphas, coefs, stops = res[0], res[1], res[2]
+    mt = name == "MultiTaskLasso"
+    if list(np.asarray(alphas, dtype=float)) != grid:
+        out.append(("returned_alphas_differ_from_grid", np.asarray(alphas).tolist(), grid))
+    for t, a in enumerate(grid):
+        w = coefs[:, :, t].T if mt else coefs[:, t]
+        if not np.all(np.isfinite(w)):
+            out.append(("non_finite", np.asarray(w).tolist(), "finite"))
+            continue
+        spec = dict(name=name, kw=dict(kw, alpha=a))
+        prob = estim.documented_problem(spec, X, y)
+        pcoef = w[:X.shape[1]]
+        if kw.get("positive") and np.any(pcoef < 0):
+            out.append(("negative_coefficient", dict(alpha=a, coef=np.asarray(pcoef).tolist()), ">= 0"))
+        if stops[t] <= tol:
+            viol = RC.violation(prob, w, "subdiff", "cd")[0]
+            scale = 1.0 + float(np.abs(X).sum()) * (1.0 + float(np.abs(y).max()))
+            if viol > tol * (1 + 1e-6) + 1e-10 * scale:
+                out.append(("certificate_invalid_for_documented_problem", dict(alpha=a, stop=float(stops[t]), recomputed=viol), f"<= {tol}"))
+    return out, np.asarray(coefs)
+
+
+def run_est_path(task, ctx):
+    name = task["est"]
+    for xid, X in (("tall6x3", A.G_TALL), ("wide3x5", A.G_WIDE), ("hadamard", A.O()["hadamard4x3"])):
+        p = X.shape[1]
+        ts = R.targets("multi" if name == "MultiTaskLasso" else "reg", X, ctx.tier)
+        for tname, y in ts + ([("neg", -ts[0][1])] if name != "MultiTaskLasso" else []):
+            g0 = X.T @ (y - y.mean(axis=0))
+            a0 = float(np.max(np.linalg.norm(g0, axis=1) if g0.ndim == 2 else np.abs(g0))) / X.shape[0]
+            a0 = a0 if a0 > 1e-8 else 1.0
+            base = [0.5 * a0, 0.2 * a0, 0.05 * a0]
+            grids = [base, base[::-1], [base[1]], [1.5 * a0, base[2]]]
+            for kw in est_path_kws(name, p):
+                fi = kw["fit_intercept"]
+                T = y.shape[1] if y.ndim == 2 else 0
+                inits = [None]
+                c0 = np.array([0.5, -1.0, 0.25, 2.0, -0.5][:p] + ([0.75] if fi else []))
+                inits.append(np.column_stack([c0 * (t + 1) for t in range(T)]).T if T else c0)
+                for grid in grids:
+                    for ci in inits:
+                        params = dict(op="est_path", est=name, kw=kw, X=X.tolist(), y=y.tolist(), grid=grid, xid=xid,
+                                      coef_init=None if ci is None else np.asarray(ci).tolist())
+                        v, coefs = exec_est_path(params)
+                        ctx.transitions += len(grid)
+                        ctx.states += len(grid)
+                        ctx.count("path_calls")
+                        ctx.obs(coefs, nontrivial=coefs is not None and bool(np.any(coefs)))
+                        for kind, got, exp in v:
+                            ctx.violation(f"estimator:{name}.path", kind, params, got, exp,
+                                          where=dict(estimator=name, positive=bool(kw.get("positive")), weighted=kw.get("weights") is not None,
+                                                     with_coef_init=ci is not None, fit_intercept=fi))
+    ctx.sample(dict(op="est_path", est=name, kws=len(est_path_kws(name, 3))))
+
+
 def run(task, ctx):
+    if task["op"] == "est_path":
+        return run_est_path(task, ctx)
     if task["op"] == "sqrt_path":
         return run_sqrt_path(ctx)
     if task["op"] == "solve_hist":
@@ -500,6 +601,9 @@ def run(task, ctx):
 def replay(params):
     from mc import comp as C
     from mc.core import fhex
+    if params["op"] == "est_path":
+        v, coefs = exec_est_path(params)
+        return dict(violated=bool(v), kinds=[x[0] for x in v], detail=fhex([[x[0], x[1], x[2]] for x in v[:6]]), coefs=fhex(coefs))
     if params["op"] == "sqrt_path":
         v, coefs = exec_sqrt_path(params)
         return dict(violated=bool(v), kinds=[x[0] for x in v], detail=fhex([[x[0], x[1], x[2]] for x in v[:6]]), coefs=fhex(coefs))
@@ -541,7 +645,9 @@ def describe(tier, agg):
             "warm starts (supports larger/smaller than the working set, zero support with non-zero intercept), for 15 solver "
             "configurations x 3 designs; states deduplicated by (w, Xw, alpha) bytes; (b) path() for every permutation of a 3-value "
             "grid, singletons, a grid starting above the critical value and a repeated value, with and without w_init (multitask: dense, "
-            "first-task-only-zero rows and row-sparse starts), and SqrtLasso.path on the same grids; (c) estimator "
+            "first-task-only-zero rows and row-sparse starts), SqrtLasso.path on the same grids, and estimator.path() of Lasso / "
+            "WeightedLasso / ElasticNet / MCPRegression / MultiTaskLasso over their constructor arguments (positive, weights, l1_ratio, "
+            "intercept) x grids x coef_init judged against the documented problem at each alpha; (c) estimator "
             "histories fit -> (set_params -> fit)^d, d <= 2 (3), warm_start=True, over all parameter moves; oracles: certificate of "
             "the current problem, Xw buffer consistency, optimality-gap theorem against the cold start / a fresh estimator")
     return rule, {"converged_ops": 500, "path_calls": 100, "estimator_histories": 100}
